@@ -62,6 +62,10 @@ func (r Retry) Middleware(h message.HandlerFunc) message.HandlerFunc {
 	retryLoop:
 		for {
 			waitTime := expBackoff.NextBackOff()
+			if waitTime == backoff.Stop {
+				// MaxElapsedTime has passed: give up, don't retry without any back-off
+				return producedMessages, err
+			}
 			select {
 			case <-ctx.Done():
 				return producedMessages, err
